@@ -320,8 +320,8 @@ End NDict.
 Local Open Scope string_scope.
 Definition op_method (o : op) : string :=
   match o with
-  | SetInt _ _ | SetSlice _ _ => "__setitem__" | DelInt _ | DelSlice _ => "__delitem__"
-  | Append _ => "append" | Extend _ => "extend" | Iadd _ => "__iadd__" | Imul _ | ImulQ _ _ => "__imul__"
+  | SetInt _ _ | SetSlice _ _ | SetSliceN _ => "__setitem__" | DelInt _ | DelSlice _ => "__delitem__"
+  | Append _ => "append" | Extend _ | ExtendN => "extend" | Iadd _ => "__iadd__" | Imul _ | ImulQ _ _ => "__imul__"
   | Insert _ _ | InsertX _ _ => "insert" | Pop _ | PopX _ => "pop" | ImulX _ => "__imul__" | Remove _ => "remove" | Reverse => "reverse"
   | Sort _ _ => "sort" | Clear => "clear"
   end.
